@@ -647,3 +647,113 @@ def o5(h):
         _o5_witness(h, S, t, m, b)
     _o5_witness(h, S1, 'skew', 'E1_nu0.25_rho2', 'all_y_fixed', tag='_1pt')
     _o5_witness(h, S2, 'skew', 'E1_nu0.25_rho2', 'p2_three_free', tag='_P2')
+
+
+# =========================================================================================== O6
+@obligation(P, 'O6.predict_correct_on_numpy_state_functional', cap=300)
+def o6(h):
+    """predict and correct EXACTLY AS RETURNED by the real create_dynamics_functions, called on NumPy-typed state arrays (the
+    caller's stored U_n, V_n, A_n): (a) the caller's arrays are unchanged afterwards, (b) the Newmark formulas hold against
+    those original arrays, (c) a step re-taken from the same stored state gives the same predictor (step rejection /
+    variable dt). PX: the real Mechanics.py source runs on numpy object arrays of z3 proxies; `jit` is modelled as JAX
+    defines it: jit(f)(*args) converts array arguments to fresh immutable arrays before running f (the shim COPIES ndarray
+    arguments), a bare closure receives the caller's array itself. The JAX path of O1 cannot see in-place updates (`+=`
+    rebinds on traced values)."""
+    import types
+    from .. import px
+    h.encoded('optimism.Mechanics:create_dynamics_functions (real source on proxies; the returned DynamicsFunctions.predict / .correct are '
+              'called, the closures are not reached into)')
+    h.bounds('U, V, A, Unew: all real (2,2) NumPy arrays (the code is elementwise in the field); beta > 0, gamma > 0, dt > 0: all reals; '
+             'two successive predict calls and one correct call on the same stored arrays')
+    h.assume_note('O6: model of jax.jit in the shim: ndarray arguments are copied before the body runs (functional semantics of jit: '
+                  'arguments become immutable device arrays), everything else passes through; validated per run on the real jitted '
+                  'functions with concrete NumPy arrays (ground fact) and by the concrete replay, which runs the REAL module under real JAX')
+    h.outside('callers that pass jax arrays (immutable: `+=` rebinds, covered by O1)')
+    N = (2, 2)
+
+    def jit_model(f=None, *a, **k):
+        if not callable(f):
+            return lambda g: jit_model(g)
+
+        def wrapped(*args, **kw):
+            args = [x.copy() if isinstance(x, onp.ndarray) else x for x in args]
+            kw = {n: (x.copy() if isinstance(x, onp.ndarray) else x) for n, x in kw.items()}
+            return f(*args, **kw)
+        wrapped.__wrapped__ = f
+        return wrapped
+
+    def make(symbolic, beta, gamma):
+        """the dynamics functions as returned by the real factory (symbolic: real source on proxies; concrete: the real module under JAX)"""
+        Mechanics, FunctionSpace, _, _, _, LinearElastic = _mods()
+        S = Setup()
+        fs = S.fs(jnp.asarray(REF))
+        mat = LinearElastic.create_material_model_functions({'elastic modulus': 1.0, 'poisson ratio': 0.25, 'density': 1.0})
+        if not symbolic:
+            return Mechanics.create_dynamics_functions(fs, 'plane strain', mat, Mechanics.NewmarkParameters(gamma=gamma, beta=beta))
+        import jax as _jax
+        extra = {n: getattr(_jax, n) for n in ('grad', 'jacrev', 'jacfwd', 'jvp', 'vjp', 'vmap', 'value_and_grad', 'hessian', 'lax',
+                                               'make_jaxpr', 'linearize', 'custom_jvp', 'custom_vjp')}
+        extra['jit'] = jit_model
+        mod = px.load_module('optimism/Mechanics.py', shims={'optimism.JaxConfig': px.jaxconfig_shim(extra)})
+        try:
+            par = mod.NewmarkParameters(gamma=gamma, beta=beta)      # the module's own parameter class holding the proxies
+        except Exception:
+            par = types.SimpleNamespace(gamma=gamma, beta=beta)
+        return mod.create_dynamics_functions(fs, 'plane strain', mat, par)
+
+    def fn(ex):
+        beta, gamma, dt = ex.real('beta'), ex.real('gamma'), ex.real('dt')
+        ex.assume(beta > 0)
+        ex.assume(gamma > 0)
+        ex.assume(dt > 0)
+        U, V, A, Un = ex.mat('U', *N), ex.mat('V', *N), ex.mat('A', *N), ex.mat('Un', *N)
+        U0, V0, A0 = U.copy(), V.copy(), A.copy()
+        d = make(ex.symbolic, beta, gamma)
+        W = px.unwrap
+        L = lambda *xs: [t for x in xs for t in flat(W(x))]      # element lists (concatenated), never element-wise sums
+        # snapshot of a returned array (a bare closure may return the caller's own array object)
+        arr = (lambda x: onp.array(x, dtype=object)) if ex.symbolic else (lambda x: onp.array(x, dtype=float))
+        Up, Vp = d.predict(U, V, A, dt)
+        Up, Vp = arr(Up), arr(Vp)
+        # the formulas below are evaluated with the arrays the CALLER holds (its stored U_n, V_n, A_n) as they are after the calls
+        ex.goal('predict_leaves_callers_U_unchanged', Eq(W(U), W(U0)))
+        ex.goal('predict_leaves_callers_V_unchanged', Eq(W(V), W(V0)))
+        ex.goal('predict_leaves_callers_A_unchanged', Eq(W(A), W(A0)))
+        ex.goal('predictor_displacement_vs_stored_state', Eq(W(Up), W(U + dt * V + (0.5 * dt * dt * (1.0 - 2.0 * beta)) * A)))
+        ex.goal('predictor_velocity_vs_stored_state', Eq(W(Vp), W(V + (dt * (1.0 - gamma)) * A)))
+        # a step re-taken from the same stored state (step rejection / variable dt)
+        Up2, Vp2 = d.predict(U, V, A, dt)
+        ex.goal('retaken_step_same_predictor', Eq(L(arr(Up2), arr(Vp2)), L(Up, Vp)))
+        # corrector on caller-held NumPy arrays
+        Upn, Vpn = onp.array(Up), onp.array(Vp)
+        dU = Un - Upn
+        dU0, Vp0 = dU.copy(), Vpn.copy()
+        Vn, An = d.correct(dU, Vpn, A, dt)
+        Vn, An = arr(Vn), arr(An)
+        ex.goal('correct_leaves_callers_arrays_unchanged', Eq(L(dU, Vpn, A), L(dU0, Vp0, A0)))
+        ex.goal('corrector_acceleration_times_beta_dt2', Eq(W((beta * dt * dt) * An), W(dU0)))
+        ex.goal('corrector_velocity', Eq(W(Vn), W(Vp0 + (gamma * dt) * An)))
+        ex.goal('newmark_displacement_update_vs_stored_state',
+                Eq(W(Un), W(U + dt * V + (0.5 * dt * dt * (1.0 - 2.0 * beta)) * A + (dt * dt * beta) * An)))
+        ex.goal('newmark_velocity_update_vs_stored_state', Eq(W(Vn), W(V + (dt * (1.0 - gamma)) * A + (dt * gamma) * An)))
+    px.run_px(h, 'numpy_state', fn, cap=30, div_mode='goal', sqrt_mode='goal')
+
+    # ground validation of the jit MODEL: the real source under the shim and the REAL returned functions under real JAX, both on the
+    # same concrete NumPy arrays, agree on the outputs and on what happens to the caller's arrays
+    if h.replay is None:
+        rng = onp.random.default_rng(h.seed)
+        U0, V0, A0 = rng.normal(size=N), rng.normal(size=N), rng.normal(size=N)
+        res = []
+        for symbolic in (False, True):
+            d = make(symbolic, 0.3, 0.6)
+            U, V, A = U0.copy(), V0.copy(), A0.copy()
+            Up, Vp = d.predict(U, V, A, 0.37)
+            Up, Vp = onp.array(Up, dtype=float), onp.array(Vp, dtype=float)
+            dU = U0 - Up
+            Vc = Vp.copy()
+            Vn, An = d.correct(dU, Vc, A, 0.37)
+            res.append([onp.array(x, dtype=float) for x in (Up, Vp, Vn, An, U, V, A, Vc)])
+        agree = all(onp.allclose(a, b, rtol=1e-12, atol=1e-14) for a, b in zip(*res))
+        h.fact('jit_model_agrees_with_real_jax_on_numpy_arrays', agree,
+               'outputs and post-call caller arrays of predict/correct: real module under JAX vs real source under the jit shim (max diff %.2e)'
+               % max(float(onp.abs(a - b).max()) for a, b in zip(*res)), nontrivial=False)
